@@ -28,7 +28,7 @@ STUB = ["decision heuristic when a non-VSIDS policy is sampled (hook sat.pick_va
 ASSUMPTIONS = ["perturbed decision schedules are legal CDCL executions of the same code", "z3 / truth-table oracles are correct"]
 TIERS = {
     "quick": {"runs": 60000, "block": 1000, "budget_s": 80},
-    "thorough": {"runs": 3000000, "block": 2000, "budget_s": 900},
+    "thorough": {"runs": 10000000, "block": 2000, "budget_s": 900},
 }
 SOLVER_ERRORS = (UnboundLocalError, IndexError, KeyError, TypeError, ValueError, ZeroDivisionError, OverflowError, AttributeError,
                  RecursionError, AssertionError, NameError)
